@@ -29,5 +29,10 @@ func HeaderNameToPropertyName(headerName string) string {
 			parts[i] = strings.ToUpper(part[:1]) + strings.ToLower(part[1:])
 		}
 	}
-	return strings.Join(parts, "")
+	propName := strings.Join(parts, "")
+	// A property accessed with dot notation must be an identifier: X-2FA-Code would give 2faCode
+	if propName != "" && propName[0] >= '0' && propName[0] <= '9' {
+		propName = "_" + propName
+	}
+	return propName
 }
